@@ -52,7 +52,7 @@ Back == /\ Line.e = "Op" /\ Line.b = 1 /\ ~restored
         /\ UNCHANGED <<pos, drift, base>>
 
 Call == /\ Line.e = "Op" /\ (Line.b = 1 => restored)
-        /\ CASE Line.o = "ins"   -> Insert(Line.k)
+        /\ CASE Line.o = "ins"   -> Insert(Line.k, PoisonLinks)    \* the outcome does not depend on the links found
              [] Line.o = "find"  -> Find(Line.k)
              [] Line.o = "lower" -> Lower(Line.k)
              [] Line.o = "rem"   -> Remove(Line.k, Line.nd = 1)
